@@ -232,7 +232,7 @@ def write_evidence(prop, tier, seed, results, builds, violations, known_hits, in
         'wall_s': round(wall, 1),
         'violations': len(violations),
     }
-    name = prop + '.json' if not os.environ.get('VERIF_ONLY') else '_debug_' + prop + '.json'   # partial debug runs never replace the evidence
+    name = prop + '.json' if not (os.environ.get('VERIF_ONLY') or os.environ.get('VERIF_DEBUG_EVIDENCE')) else '_debug_' + prop + '.json'   # partial debug runs never replace the evidence
     json.dump(ev, open(os.path.join(VERIF, 'evidence', name), 'w'), indent=1)
 
 
